@@ -112,6 +112,9 @@ class Node:
 class Reader:
 
     def __init__(self, tex: str, symbols: list[str]):
+        # TeX ignores blanks in math mode: two numerals separated only by a blank are typeset as
+        # one numeral (this is what the printer's number separator exists to prevent)
+        tex = re.sub(r"(?<=[0-9.]) +(?=[0-9])", "", tex)
         self.t = tex
         self.i = 0
         self.symbols = sorted(set(s for s in symbols if s), key=len, reverse=True)
